@@ -332,6 +332,14 @@ func singleOwner(c *Check, t *Tracker) {
 				}
 				holds := containsUserPtr(f.Type(), t.UserT, 0) || (strings.Contains(ft, "GenericSyncMap[") && strings.Contains(ft, "sessiontracker.user"))
 				n++
+				if holds {
+					if nt, isN := tn.Type().(*types.Named); isN {
+						if ok, why := transientCarrier(p, nt); ok {
+							c.OK("single-owner", "field "+tn.Name()+"."+f.Name()+" : "+ft, p.Pos(f.Pos()), "field of a transient carrier struct ("+why+"): values of this type live only in locals, parameters and callbacks handed to repository functions for the duration of one delivery")
+							continue
+						}
+					}
+				}
 				c.Cond(!holds, "single-owner", "field "+tn.Name()+"."+f.Name()+" : "+ft, p.Pos(f.Pos()), "cannot hold a session object", "a second container can hold session objects: releasing a session from the sessions map leaves it reachable here, so an ended session can still be bound or recycled with its old identity")
 			}
 		}
@@ -384,4 +392,158 @@ func releaseOnlyOnEnd(c *Check, t *Tracker) {
 		}
 	}
 	c.Floor("session removals in deliveries", 2, n)
+}
+
+
+// typeMentions: tp contains the named type nt (by value, pointer, element).
+func typeMentions(tp types.Type, nt *types.Named, depth int) bool {
+	if depth > 5 {
+		return false
+	}
+	switch u := tp.(type) {
+	case *types.Named:
+		if u.Obj() == nt.Obj() {
+			return true
+		}
+		if u.Obj().Pkg() == nil || !strings.HasPrefix(u.Obj().Pkg().Path(), ModPath) {
+			return false
+		}
+		if _, isStruct := u.Underlying().(*types.Struct); isStruct {
+			return false // a field of another struct: judged on that struct's own fields
+		}
+		return typeMentions(u.Underlying(), nt, depth+1)
+	case *types.Pointer:
+		return typeMentions(u.Elem(), nt, depth+1)
+	case *types.Slice:
+		return typeMentions(u.Elem(), nt, depth+1)
+	case *types.Array:
+		return typeMentions(u.Elem(), nt, depth+1)
+	case *types.Map:
+		return typeMentions(u.Elem(), nt, depth+1) || typeMentions(u.Key(), nt, depth+1)
+	case *types.Chan:
+		return typeMentions(u.Elem(), nt, depth+1)
+	}
+	return false
+}
+
+// transientCarrier: values of struct type nt never outlive one activation
+// chain: no struct field (other than an embedding in another transient
+// carrier), package variable, map, slice element, channel or interface
+// value of the daemon holds one; a method value made from one is only
+// called or handed to a repository function.
+func transientCarrier(p *Prog, nt *types.Named) (bool, string) {
+	return transientCarrierD(p, nt, 0)
+}
+
+func transientCarrierD(p *Prog, nt *types.Named, depth int) (bool, string) {
+	if depth > 3 {
+		return false, "nesting too deep"
+	}
+	// type level: fields and package variables
+	for _, pkg := range p.Pkgs {
+		if !p.Daemon[pkg.PkgPath] {
+			continue
+		}
+		scope := pkg.Types.Scope()
+		for _, name := range scope.Names() {
+			switch o := scope.Lookup(name).(type) {
+			case *types.TypeName:
+				st, ok := o.Type().Underlying().(*types.Struct)
+				if !ok || o == nt.Obj() {
+					continue
+				}
+				for i := 0; i < st.NumFields(); i++ {
+					if typeMentions(st.Field(i).Type(), nt, 0) {
+						on, isN := o.Type().(*types.Named)
+						if !isN {
+							return false, ""
+						}
+						if ok2, _ := transientCarrierD(p, on, depth+1); !ok2 {
+							return false, "held in field " + o.Name() + "." + st.Field(i).Name()
+						}
+					}
+				}
+			case *types.Var:
+				if typeMentions(o.Type(), nt, 0) {
+					return false, "held in package variable " + o.Name()
+				}
+			}
+		}
+	}
+	// instruction level
+	bad := ""
+	for _, fn := range p.AllRepoFuncs() {
+		if !p.InDaemon(fn) || fn.Blocks == nil {
+			continue
+		}
+		allInstrs(fn, func(in ssa.Instruction) {
+			switch x := in.(type) {
+			case *ssa.Store:
+				if !typeMentions(x.Val.Type(), nt, 0) {
+					return
+				}
+				base := x.Addr
+				for {
+					if fa, ok := base.(*ssa.FieldAddr); ok {
+						base = fa.X
+						continue
+					}
+					break
+				}
+				if _, isAlloc := base.(*ssa.Alloc); !isAlloc {
+					bad = "stored through " + p.InstrPos(in)
+				}
+			case *ssa.MapUpdate:
+				if typeMentions(x.Value.Type(), nt, 0) {
+					bad = "stored into a map at " + p.InstrPos(in)
+				}
+			case *ssa.Send:
+				if typeMentions(x.X.Type(), nt, 0) {
+					bad = "sent on a channel at " + p.InstrPos(in)
+				}
+			case *ssa.MakeInterface:
+				if typeMentions(x.X.Type(), nt, 0) {
+					bad = "converted to an interface at " + p.InstrPos(in)
+				}
+			case *ssa.Go:
+				for _, a := range x.Call.Args {
+					if typeMentions(a.Type(), nt, 0) {
+						bad = "handed to a goroutine at " + p.InstrPos(in)
+					}
+				}
+			case *ssa.MakeClosure:
+				holds := false
+				for _, b := range x.Bindings {
+					if typeMentions(b.Type(), nt, 0) {
+						holds = true
+					}
+				}
+				if !holds {
+					return
+				}
+				if rr := x.Referrers(); rr != nil {
+					for _, u := range *rr {
+						ci, isCall := u.(*ssa.Call)
+						if !isCall {
+							if _, isDbg := u.(*ssa.DebugRef); !isDbg {
+								bad = "a method value of it is kept at " + p.InstrPos(u)
+							}
+							continue
+						}
+						if ci.Call.Value == ssa.Value(x) {
+							continue // called directly
+						}
+						sc := staticCallee(ci.Common())
+						if sc == nil || !InRepo(sc) {
+							bad = "a method value of it is handed to code outside the repository at " + p.InstrPos(u)
+						}
+					}
+				}
+			}
+		})
+	}
+	if bad != "" {
+		return false, bad
+	}
+	return true, "never stored in a field, variable, map, channel or interface"
 }
